@@ -28,7 +28,8 @@ RULE = ("simulated audits with 1-4 contests of different risk limits, audit type
 REQUIRED = ["contract:Assertion.set_p_values", "contract:Audit.summarize_status", "contract:Assertion.reset_p_values",
             "assertions_recomputed", "status:complete", "status:incomplete", "mixed_confirmed_and_unconfirmed",
             "p_equal_to_limit_confirmed", "second_call_same_length_different_data", "contest_meets_neighbours_limit_not_own",
-            "params_silent", "params_rejected", "proved_sticky_observed"]
+            "params_silent", "params_rejected", "proved_sticky_observed",
+            "test_objects_hold_another_bound_before_call"]
 ASSUMPTIONS = ["samples have at least one observation per assertion", "summarize_status prints: stdout is swallowed, not parsed"]
 N_CASES = {"quick": 9600, "thorough": 80000}
 
@@ -239,6 +240,14 @@ def run_case(es, rec):
             if not ok:
                 return
             m, c = ms
+            if rng.random() < 0.3:
+                # the test objects hold a bound other than the one that applies now (objects first used under another
+                # audit type, margins revised since, ...): the recorded p-value must still be what the configured test
+                # returns on the assertion's data WITH the assertion's bound
+                for con in sim.contests.values():
+                    for asn in con.assertions.values():
+                        asn.test.u = asn.test.u * rng.choice((1.25, 1.5, 2.0))
+                rec.count("test_objects_hold_another_bound_before_call")
             ok, pmax = rec.guard("c09.call:set_p_values", A.set_p_values, sim.contests, m, c)
             if not ok:
                 return
